@@ -79,14 +79,15 @@ func c10Run(f *Fixture, c *c10Case) []Discrepancy {
 		time.Sleep(15 * time.Millisecond) // let the proxy notice; the next request re-dials (handshake still pending)
 	}
 	// the store semantics for the SET/GET pairs: GET returns what SET wrote only if SET arrived first
-	ds := pipeRunCompare("C10", f, &c.Cfg, &c.Spec, 0)
+	spec := stampSpec(&c.Spec, f.Nonce())
+	ds := pipeRunCompare("C10", f, &c.Cfg, spec, 0)
 	if len(ds) > 0 {
 		return ds
 	}
 	// per (client, node): the node's log restricted to the client's tokens is in client sequence order
 	type cn struct{ c, n int }
 	last := map[cn]int{}
-	for _, lr := range f.Cluster.Log() {
+	for _, lr := range f.LastLog {
 		ks := keysOf(lr.Name, lr.Args)
 		if len(ks) == 0 {
 			continue
